@@ -200,6 +200,52 @@ func targeted() []*gen.Spec {
 		}},
 		gen.Block{App: []string{"Svc"}, Members: []gen.Member{{Kind: gen.MEndpoint, Name: "Do"}, {Kind: gen.MEndpoint, Name: "Other"}}},
 	)
+	// 12. attribute precedence (addAttrWithPrecedence): the same attribute given inline in the header and again as an
+	//     annotation on ONE element keeps the FIRST non-empty value - arrays like strings; empty values are overwritten
+	aArr := func(n string, vs ...string) gen.Anno { return gen.Anno{Name: n, Kind: 1, Arr: arr(vs...)} }
+	aStr := func(n, v string) gen.Anno { return gen.Anno{Name: n, Kind: 0, S: v} }
+	nested := proj.Attr{Kind: "a", Elts: []proj.Attr{arr("a"), arr("b", "c")}}
+	own := func(vs ...string) []gen.Entry { return []gen.Entry{{Name: "owners", Val: arr(vs...)}} }
+	o1, o2, o3, o4, o5 := aArr("owners", "dave", "erin"), aArr("owners", "dave", "erin"), aArr("owners", "dave", "erin"), aArr("owners", "dave", "erin"), aArr("owners", "dave", "erin")
+	e1, e2 := aArr("tier"), aStr("team", "")
+	s1, s2, s3 := aStr("tier", "gold"), aArr("team", "x", "y"), aStr("tier", "silver")
+	n1, n2 := gen.Anno{Name: "grid", Kind: 1, Arr: nested}, aArr("grid", "flat")
+	t1, t2 := aStr("mix", "text"), aArr("mix", "arr")
+	u1, u2 := aArr("mix2", "arr"), aStr("mix2", "text")
+	one(
+		gen.Block{App: []string{"Bank"}, Attribs: own("alice"), Members: []gen.Member{
+			{Kind: gen.MAnno, Anno: &o1},
+			{Kind: gen.MType, Name: "Account", Attribs: own("carol"), Items: []gen.TableItem{
+				{Field: &gen.Field{Name: "id", Ty: nat("int"), Attribs: own("fay"), Annos: []gen.Anno{o5}}},
+				{Anno: &o2}, {Anno: &e1}, {Anno: &s1}, {Anno: &s3}, {Anno: &e2}, {Anno: &s2}, {Anno: &n1}, {Anno: &n2},
+				{Anno: &t1}, {Anno: &t2}, {Anno: &u1}, {Anno: &u2}}},
+			{Kind: gen.MEndpoint, Name: "Open", Attribs: own("bob"), Annos: []gen.Anno{o3, aArr("tier"), aArr("tier", "first"), aArr("tier", "second")},
+				Body: []gen.Stmt{{Kind: gen.KRet, Text: "ok"}}},
+			{Kind: gen.MRest, Rest: &gen.RestNode{Segs: []gen.PathSeg{{Static: "accounts"}}, Children: []gen.RestChild{
+				{Method: &gen.Method{Verb: "GET", Attribs: own("gus"), Annos: []gen.Anno{o4, aStr("team", ""), aStr("team", "core")}, Body: []gen.Stmt{{Kind: gen.KRet, Text: "ok"}}}}}}},
+		}},
+	)
+	// 13. in-place tuples (regressions for fixes/C02-7..10): a !table with a field AFTER an in-place tuple, and a nested
+	//     field that has the name of a later key field of the table (key order [id note code]); a field name
+	//     with a literal percent sign; the array form under a name that needs escaping; nesting; a reference inside
+	nf := func(name string, t gen.TypeExpr) gen.NField { return gen.NField{Field: &gen.Field{Name: name, Ty: t}} }
+	one(gen.Block{App: []string{"Geo"}, Members: []gen.Member{
+		{Kind: gen.MTable, Name: "Place", Items: []gen.TableItem{
+			{Field: &gen.Field{Name: "id", Ty: nat("int"), Attribs: []gen.Entry{{Tag: "pk"}}}},
+			{Tuple: &gen.InTuple{Name: "inner", Fields: []gen.NField{nf("a", nat("int")), nf("code", nat("int"))}}},
+			{Field: fld("z", gen.CNone, nat("int"), false)},
+			{Field: &gen.Field{Name: "note", Ty: nat("string"), Attribs: []gen.Entry{{Tag: "pk"}}}},
+			{Field: &gen.Field{Name: "code", Ty: nat("int"), Attribs: []gen.Entry{{Tag: "pk"}}}}}},
+		{Kind: gen.MType, Name: "Shape", Items: []gen.TableItem{
+			{Tuple: &gen.InTuple{Name: "arr", Array: true, Fields: []gen.NField{nf("a", nat("int"))}}},
+			{Tuple: &gen.InTuple{Name: "a%41b", Fields: []gen.NField{nf("q", nat("int"))}}},
+			{Tuple: &gen.InTuple{Name: "m n", Array: true, Fields: []gen.NField{nf("q", nat("int"))}}},
+			{Tuple: &gen.InTuple{Name: "rate 100%", Fields: []gen.NField{nf("q", nat("string"))}}},
+			{Tuple: &gen.InTuple{Name: "addr", Fields: []gen.NField{nf("street", nat("string")),
+				{Tuple: &gen.InTuple{Name: "geo", Fields: []gen.NField{nf("lat", nat("float")), nf("back", gen.TypeExpr{Kind: gen.XLocal, Local: "Shape"})}}},
+				nf("other", gen.TypeExpr{Kind: gen.XLocal, Local: "Place"})}}},
+			{Field: fld("last", gen.CNone, nat("int"), false)}}},
+	}})
 	return out
 }
 
